@@ -320,6 +320,20 @@ impl Case {
     pub fn n_ops(&self) -> usize {
         self.tasks.iter().map(|t| t.ops.len()).sum()
     }
+    /// hash of what the workload *is* (capacity, constructor, payload class, tasks, epilogue) without the
+    /// payload bit mask and the scheduler / fault knobs: two runs of the same shape under different schedules
+    /// count as distinct only if their histories differ
+    pub fn shape_hash(&self) -> u64 {
+        use std::hash::{Hash, Hasher};
+        let mut h = crate::util::Fnv::default();
+        self.cap.hash(&mut h);
+        self.ctor.hash(&mut h);
+        self.class.hash(&mut h);
+        self.tasks.hash(&mut h);
+        self.epilogue.hash(&mut h);
+        self.knobs.freeze.hash(&mut h);
+        h.finish()
+    }
     pub fn hash64(&self) -> u64 {
         use std::hash::{Hash, Hasher};
         let mut h = crate::util::Fnv::default();
